@@ -88,6 +88,7 @@ type World struct {
 	byRoot  map[common.Hash]*FBlock
 	head    *FBlock
 	counter uint64
+	hi      [nAccounts]uint64 // highest chain nonce any block has reached per account
 	feed    event.Feed
 }
 
@@ -183,6 +184,11 @@ func (w *World) newBlock(parent *FBlock, gasLim uint64, txs []ATx, st [nAccounts
 		real[i] = w.Tx(t)
 	}
 	b := &FBlock{blk: types.NewBlock(h, real, nil, nil), parent: parent, num: num, gasLim: gasLim, txs: txs, st: st, root: root}
+	for i, a := range st {
+		if a.Nonce > w.hi[i] {
+			w.hi[i] = a.Nonce
+		}
+	}
 	w.byHash[b.blk.Hash()] = b
 	w.byRoot[root] = b
 	return b
@@ -218,6 +224,12 @@ func (w *World) Head() *FBlock {
 	w.mu.RLock()
 	defer w.mu.RUnlock()
 	return w.head
+}
+
+func (w *World) HiNonce(i int) uint64 {
+	w.mu.RLock()
+	defer w.mu.RUnlock()
+	return w.hi[i]
 }
 
 func (w *World) CurrentBlock() *types.Block { return w.Head().blk }
